@@ -306,8 +306,14 @@ def check_by_name(F, rep):
             continue
         can = analyze_fn(F, cf)
         outs = []
+        LOOKUPS = ("string_table::StringTable::get", "string_table::StringTable::get_raw")
         for t, st, calls in can.paths() or []:
-            gets = [c for c in calls if c.callee_qual in ("string_table::StringTable::get", "string_table::StringTable::get_raw")]
+            # value-based: the look-ups this outcome depends on, whether made here or in a private helper (`strtab.name_eq(..)`)
+            gets = []
+            for x in [t] + [y for f in st.facts for y in f[1:] if isinstance(y, Term)]:
+                for z in x.subterms():
+                    if z.op == "call" and z.args[0] in LOOKUPS and z not in gets:
+                        gets.append(z)
             outs.append((t, st, gets))
         msgs = []
         n_eq = n_false = 0
@@ -317,16 +323,16 @@ def check_by_name(F, rep):
                 msgs.append("the predicate does not look the name up exactly once")
                 continue
             g = gets[0]
-            raw = g.callee_qual.endswith("get_raw")
-            idx = norm(g.arg_values()[1])
+            raw = g.args[0].endswith("get_raw")
+            idx = norm(g.args[2][1])
             if not (idx[0] == "fld" and idx[2] == "sh_name"):
                 msgs.append("the name is looked up at %s, expected shdr.sh_name" % show(idx)[:100])
-            if ("var", g.result, "Err") in st.facts:
+            if ("var", g, "Err") in st.facts:
                 n_false += 1
                 if not (t.op == "const" and t.args[1] == 0):
                     msgs.append("an unreadable name yields %s instead of `false`" % pp(t)[:80])
                 continue
-            nm_v = T.payload(g.result, "Ok")
+            nm_v = T.payload(g, "Ok")
             cmp_t = None
             if t.op == "bin" and t.args[0] == "Eq" and nm_v in (t.args[1], t.args[2]):
                 cmp_t = t
